@@ -564,6 +564,9 @@ func (t *queryTerm) QueryConditions(pc *parserContext) (ConditionsSet, error) {
 						SubQueries: []string{t.SubQuery, e.Variable.Sub},
 						Mask:       flagsStreamProtocol,
 					}).invert()...)
+				} else {
+					// every stream has its own protocol, this alternative matches everything
+					conds = append(conds, Conditions{})
 				}
 				continue
 			}
@@ -895,6 +898,11 @@ func (t *queryTerm) QueryConditions(pc *parserContext) (ConditionsSet, error) {
 
 func (cs Conditions) invert() ConditionsSet {
 	// !(a & b & c) == !a | !b | !c
+	if len(cs) == 0 {
+		// no conditions match everything, the opposite matches nothing
+		// (an empty ConditionsSet would be read as "no restriction")
+		return ConditionsSet{Conditions{&impossibleCondition}}
+	}
 	res := ConditionsSet(nil)
 	for _, c := range cs {
 		res = res.Or(c.invert())
